@@ -66,7 +66,7 @@ PROPS = {
             ('SEL-ITEM', None), ('SEL-CONSUME', None), ('SEL-PAIR', None), ('TAG-AGREE', None), ('VARIANTS-EXHAUSTIVE', None),
             ('EXTENSIONS', None), ('INGEST-ALL', None), ('ID-TYPING', None), ('ID-ABSENT', None), ('TYPES-2', None), ('TYPES-4', None),
             ('TYPENAME-SAME-TYPE', None), ('ID-HELPER', None)],
-    'C02': [('EXTENSIONS', None), ('SPREAD-BOXED', None), ('SWAPPED-ARGS', inst_has('codegen', 'floor', 'scan')), ('NAME-AGREE', None), ('DEFAULT-LITERAL', None), ('SET-SCOPE', None), ('OUT-CONTENT', inst_has('truncate')), ('BODY-STRUCT', None), ('REP-FRESH', None), ('DERIVE-DEDUP', None), ('REACH-KINDS', None), ('SCALAR-BUILTIN', None), ('GRAMMAR', None), ('SERDE-CRATE', None), ('SERDE-PATH', None), ('IDENT-1', None), ('IDENT-2', None), ('KW-TABLE', None),
+    'C02': [('JSON-SHAPES', None), ('INTRO-NULLABLE', None), ('EXTENSIONS', None), ('SPREAD-BOXED', None), ('SWAPPED-ARGS', inst_has('codegen', 'floor', 'scan')), ('NAME-AGREE', None), ('DEFAULT-LITERAL', None), ('SET-SCOPE', None), ('OUT-CONTENT', inst_has('truncate')), ('BODY-STRUCT', None), ('REP-FRESH', None), ('DERIVE-DEDUP', None), ('REACH-KINDS', None), ('SCALAR-BUILTIN', None), ('GRAMMAR', None), ('SERDE-CRATE', None), ('SERDE-PATH', None), ('IDENT-1', None), ('IDENT-2', None), ('KW-TABLE', None),
             ('ID-TYPING', None), ('ID-SHAPE', None), ('SEL-PAIR', None), ('DEF-CLOSURE', None), ('ONE-ENTRY', None), ('TYPES-2', None),
             # finite-size types: recursion must be found and boxed, or the module does not type-check (E0072)
             ('VISITED-DISCIPLINE', None), ('BOX-SITES', None), ('REACH-INPUT', None), ('REACH-FRAGMENT', None),
@@ -75,12 +75,12 @@ PROPS = {
             ('OTHER-GUARD', None), ('VARIANTS-EXHAUSTIVE', None), ('WIRE-1', inst_has('typename-variant')), ('EXTENSIONS', None), ('SIB-2', None),
             # the tagged enum (and its Unknown variant) exists only because validation forces __typename onto the abstract type itself
             ('TYPENAME-SAME-TYPE', None), ('TYPENAME-MATRIX', None), ('INGEST-ALL', None), ('ID-HELPER', None), ('CACHE-KEY', None)],
-    'C04': [('ENUM-ORDER', None), ('ATTR-SCAN', None), ('QUALIFIERS-FIXED', None), ('ONEOF-VALUE', None), ('ID-INDEX', None), ('TYPES-3', None), ('ENUM-SHAPE', None), ('ENUM-ZIP', None), ('GRAMMAR', None), ('WIRE-1', inst_has('ResolvedVariable', 'StoredInputType', 'enum-value', 'floor/variable', 'floor/input', 'floor/oneof')),
+    'C04': [('INTRO-KEYS', inst_has('is_one_of', 'floor')), ('ENUM-ORDER', None), ('ATTR-SCAN', None), ('QUALIFIERS-FIXED', None), ('ONEOF-VALUE', None), ('ID-INDEX', None), ('TYPES-3', None), ('ENUM-SHAPE', None), ('ENUM-ZIP', None), ('GRAMMAR', None), ('WIRE-1', inst_has('ResolvedVariable', 'StoredInputType', 'enum-value', 'floor/variable', 'floor/input', 'floor/oneof')),
             ('WIRE-2', inst_has('ResolvedVariable', 'StoredInputType')),
             # response fields also carry the attribute, but no given property constrains it there (C01 allows null-vs-absent)
             ('SKIP-NONE', inst_has('ResolvedVariable', 'StoredInputType', 'floor')), ('ONEOF-SHAPE', None),
             ('VARS-ORIGIN', None), ('TYPES-2', None), ('TYPES-4', None)],
-    'C05': [('POST-HELPER', None), ('ATTR-PATHS', inst_has('set_query_file')), ('OP-NOT-FOUND-MSG', None), ('ROOTS', None), ('ID-INDEX', None), ('GRAMMAR', None), ('BODY-STRUCT', None), ('BODY-CONST', None), ('BODY-IMPL', None), ('INCLUDE-STR', None), ('WIRE-1', inst_has('OPERATION_NAME', 'QUERY')),
+    'C05': [('VALUE-FOLD', None), ('POST-HELPER', None), ('ATTR-PATHS', inst_has('set_query_file')), ('OP-NOT-FOUND-MSG', None), ('ROOTS', None), ('ID-INDEX', None), ('GRAMMAR', None), ('BODY-STRUCT', None), ('BODY-CONST', None), ('BODY-IMPL', None), ('INCLUDE-STR', None), ('WIRE-1', inst_has('OPERATION_NAME', 'QUERY')),
             ('BODY-KEYS', None), ('NO-FALLBACK', None), ('SAME-OP', None), ('QUERY-TEXT', None)],
     'C06': [('SET-SCOPE', None), ('ID-INDEX', None), ('CACHE-KEY', None), ('TYPENAME-SAME-TYPE', None), ('ROOTS-AGREE', None), ('LOOKUP-CHECKED', None), ('ERR-PROPAGATED', inst_has('query::', 'graphql_client_codegen::', 'GeneratedModule', 'codegen::')),
             ('VALIDATE-ORDER', None), ('KIND-MATRIX', None), ('COND-MATRIX', None), ('TYPENAME-MATRIX', None), ('ROOTS', None), ('UNION-FIELDS', None)],
@@ -88,19 +88,19 @@ PROPS = {
             ('ROOTS-AGREE', None), ('EXTENSIONS', None), ('ID-ORDER', None), ('INGEST-ALL', None), ('ENUM-VALUES', None)],
     'C08': [('STATE-INVENTORY', None), ('CACHE-ACCESS', None), ('CACHE-KEY', None), ('LOCK-DISCIPLINE', None), ('NO-AMBIENT', None), ('ORDERED', None)],
     'C09': [('ENUM-ORDER', None), ('EXTERN-FILTER', None), ('ATTR-PLUMB', inst_has('/independent')), ('SCAN-GUARD', None), ('DERIVE-KEEP', None), ('WIRE-1', inst_has('typename-variant', 'OPERATION_NAME')), ('BODY-CONST', None), ('NORM-ID', None), ('GRAMMAR', None), ('OPT-1', None), ('OPT-2', None), ('DERIVE-ONLY', None)],
-    'C10': [('ENUM-ORDER', None), ('KW-TABLE', None), ('STORE-TOTAL', inst_has('stored_enums', 'floor')), ('CACHE-KEY', None), ('REP-FRESH', None), ('ENUM-VALUES', None), ('GRAMMAR', None), ('ENUM-SHAPE', None), ('ENUM-OPEN', None), ('ENUM-ZIP', None), ('WIRE-1', inst_has('enum-value')),
+    'C10': [('DOC-CONTENT', inst_has('includeDeprecated/enumValues')), ('ENUM-ORDER', None), ('KW-TABLE', None), ('STORE-TOTAL', inst_has('stored_enums', 'floor')), ('CACHE-KEY', None), ('REP-FRESH', None), ('ENUM-VALUES', None), ('GRAMMAR', None), ('ENUM-SHAPE', None), ('ENUM-OPEN', None), ('ENUM-ZIP', None), ('WIRE-1', inst_has('enum-value')),
             ('OPT-1', inst_has('enum-value')), ('DERIVE-FILTER', None)],
     'C11': [('DEFAULT-LITERAL', inst_has('/variant')), ('SEL-TOTAL', None), ('ALIAS-KEY', None), ('GRAMMAR', None), ('KW-TABLE', None), ('IDENT-1', None), ('IDENT-2', None), ('WIRE-1', inst_has('field[', 'variant[', 'enum-value', 'floor/')),
             ('WIRE-2', None)],
     'C12': [('SPREAD-BOXED', None), ('SPREAD-LOOKUP', None), ('SET-SCOPE', None), ('SKIP-NONE', inst_has('StoredInputType', 'ResolvedVariable')), ('VISITED-DISCIPLINE', None), ('REACH-KINDS', None), ('GRAMMAR', None), ('BOX-SITES', None), ('BOX-INVISIBLE', None), ('REACH-INPUT', None), ('REACH-FRAGMENT', None),
             ('REC-GUARD', inst_has('contains_type_without_indirection', 'contains_fragment', 'fragment_is_recursive', 'input_is_recursive'))],
     'C13': [('QUALIFIERS-FIXED', None), ('ONEOF-VALUE', None), ('NAME-AGREE', None), ('STORE-TOTAL', inst_has('stored_fields', 'floor')), ('CACHE-KEY', None), ('SCALAR-BUILTIN', None), ('GRAMMAR', None), ('TYPES-1', None), ('TYPES-2', None), ('TYPES-3', None), ('TYPES-4', None), ('TYPES-5', None)],
-    'C14': [('ATTR-PLUMB', inst_has('/independent')), ('RENDER-ALL', None), ('SCAN-GUARD', None), ('GRAMMAR', None), ('DEPR-TABLE', None), ('DEPR-NOTE', None), ('DEPR-ORIGIN', None), ('DEPR-DEFAULT', None), ('SIB-3', None),
+    'C14': [('INTRO-KEYS', inst_has('deprecat', 'floor')), ('ATTR-PLUMB', inst_has('/independent')), ('RENDER-ALL', None), ('SCAN-GUARD', None), ('GRAMMAR', None), ('DEPR-TABLE', None), ('DEPR-NOTE', None), ('DEPR-ORIGIN', None), ('DEPR-DEFAULT', None), ('SIB-3', None),
             ('ATTR-PRECISION', inst_has('deny_unknown', 'struct/'))],
     'C15': [('FMT-SELF', inst_has('graphql_client::Error', 'PathFragment', 'floor')), ('ENV-ACCEPT', None), ('ENV-ROUNDTRIP', None), ('DISPLAY-FORMAT', None), ('DISPLAY-TOTAL', None)],
-    'C16': [('DEP-FEATURES', None), ('TYPES-3', None), ('ATTR-PRECISION', inst_has('default', 'deserialize_with')), ('NORM-ID', None), ('GRAMMAR', None), ('ID-SHAPE', None), ('ID-ATTACH', None), ('ID-TYPING', None), ('ID-ABSENT', None), ('ID-HELPER', None)],
+    'C16': [('TYPES-3', None), ('ATTR-PRECISION', inst_has('default', 'deserialize_with')), ('NORM-ID', None), ('GRAMMAR', None), ('ID-SHAPE', None), ('ID-ATTACH', None), ('ID-TYPING', None), ('ID-ABSENT', None), ('ID-HELPER', None)],
     'C17': [('SPREAD-LOOKUP', None), ('FMT-SELF', None), ('SET-SCOPE', None), ('VISITED-DISCIPLINE', None), ('DOUBLE-DESCENT', None), ('REC-GUARD', None), ('LOOP-PROGRESS', None), ('NO-ABORT', None), ('PIPE-DRAIN', None)],
-    'C18': [('ATTR-SCAN', None), ('DERIVE-SPLIT', None), ('SWAPPED-ARGS', None), ('DERIVE-KEEP', None), ('DEPR-DEFAULT', None), ('SCAN-GUARD', None), ('VALUE-PARSE', None), ('ATTR-PLUMB', None), ('ATTR-DEFAULTS', None), ('ATTR-PATHS', None), ('ATTR-MODE', None)],
+    'C18': [('VALUE-FOLD', None), ('ATTR-SCAN', None), ('DERIVE-SPLIT', None), ('SWAPPED-ARGS', None), ('DERIVE-KEEP', None), ('DEPR-DEFAULT', None), ('SCAN-GUARD', None), ('VALUE-PARSE', None), ('ATTR-PLUMB', None), ('ATTR-DEFAULTS', None), ('ATTR-PATHS', None), ('ATTR-MODE', None)],
     'C19': [('SWAPPED-ARGS', None), ('BODY-STRUCT', None), ('DERIVE-KEEP', None), ('PIPE-DRAIN', None), ('FLAG-PLUMB', None), ('OUT-CONTENT', None), ('OUT-PATH', None), ('NO-WRITE-ON-ERROR', None), ('ONE-ENTRY', None),
             ('ERR-PROPAGATED', inst_has('generate::'))],
     'C20': [('SWAPPED-ARGS', None), ('REQ-BUILD', None), ('DOC-PAIRING', None), ('DOC-TABLE', None), ('DOC-CONTENT', None), ('STATUS', None), ('OUT-AFTER-SUCCESS', None),
